@@ -156,11 +156,29 @@ structure Pool where
   strs : List String
   cap : Nat
 
-def product (cap : Nat) : List (List Val) → List (List Val)
-  | [] => [[]]
-  | vs :: rest =>
-    let tails := product cap rest
-    ((vs.flatMap (fun v => tails.map (v :: ·))).take cap)
+/-- keep at most `cap` elements, evenly spread (not a prefix, so that every constructor survives) -/
+def thin {α : Type} (cap : Nat) (xs : List α) : List α :=
+  if xs.length ≤ cap || cap == 0 then xs
+  else
+    let k := (xs.length + cap - 1) / cap
+    ((List.range xs.length).zip xs).filterMap (fun (i, x) => if i % k == 0 then some x else none)
+
+def iroot (k cap : Nat) : Nat :=
+  -- largest b ≥ 2 with b^k ≤ cap (at least 2)
+  let rec go (b : Nat) (fuel : Nat) : Nat :=
+    match fuel with
+    | 0 => b
+    | fuel + 1 => if (b + 1) ^ k ≤ cap then go (b + 1) fuel else b
+  go 2 64
+
+def product (cap : Nat) (lists : List (List Val)) : List (List Val) :=
+  let b := iroot lists.length cap
+  let rec go : List (List Val) → List (List Val)
+    | [] => [[]]
+    | vs :: rest =>
+      let tails := go rest
+      (thin b vs).flatMap (fun v => tails.map (v :: ·))
+  go lists
 
 partial def genVals (S : Sig) (pool : Pool) : Nat → Ty → List Val
   | _, .unit => [.unit]
@@ -286,7 +304,7 @@ def runSite (S : Sig) (depth cap : Nat) (site : Site) (real : String × String) 
   let pool : Pool :=
     { ints := (pats.flatMap patInts ++ [0, 1, -1, 7, 100, 255, 70000]).eraseDups,
       strs := (pats.flatMap patStrs ++ ["", "c06~other"]).eraseDups, cap := cap }
-  let vals := (genVals S pool depth si.scrutTy).take cap
+  let vals := thin cap (genVals S pool depth si.scrutTy)
   let hyp :=
     let nconf := vals.filter (fun v => !(pats.all (fun p => conf S p v)))
     let fresh := !(isGenName si.x)
